@@ -91,7 +91,21 @@ func (svg *SVGImage) Draw(dst backend.Canvas, width, height Fl, textContext text
 	svg.textContext = textContext
 	// the text cursor is a drawing state : start afresh, the image may be drawn several times
 	svg.cursorPosition, svg.cursorDPosition = point{}, point{}
+	// so are the bounding boxes of the texts, computed while drawing
+	svg.root.resetTextBoundingBoxes()
 	svg.drawNode(dst, svg.root, dims, true)
+}
+
+func (node *svgNode) resetTextBoundingBoxes() {
+	if node == nil {
+		return
+	}
+	if text, ok := node.graphicContent.(*textSpan); ok {
+		text.textBoundingBox = emptyBbox
+	}
+	for _, child := range node.children {
+		child.resetTextBoundingBoxes()
+	}
 }
 
 // if paint is false, only the path operations are executed, not the actual filling or drawing
